@@ -75,6 +75,38 @@ pub fn k_storage_u8_6() {
 }
 #[kani::proof]
 #[kani::unwind(8)]
+pub fn k_storage_keyed_3() {
+    let raw: [u8; storage::RAW] = kani::any();
+    let code = storage::scenario::<storage::Keyed>(&raw, 3);
+    kani::cover!(code == 0);
+    assert!(code <= 1);
+}
+#[kani::proof]
+#[kani::unwind(8)]
+pub fn k_storage_keyed_4() {
+    let raw: [u8; storage::RAW] = kani::any();
+    let code = storage::scenario::<storage::Keyed>(&raw, 4);
+    kani::cover!(code == 0);
+    assert!(code <= 1);
+}
+#[kani::proof]
+#[kani::unwind(8)]
+pub fn k_storage_keyed_5() {
+    let raw: [u8; storage::RAW] = kani::any();
+    let code = storage::scenario::<storage::Keyed>(&raw, 5);
+    kani::cover!(code == 0);
+    assert!(code <= 1);
+}
+#[kani::proof]
+#[kani::unwind(8)]
+pub fn k_storage_keyed_6() {
+    let raw: [u8; storage::RAW] = kani::any();
+    let code = storage::scenario::<storage::Keyed>(&raw, 6);
+    kani::cover!(code == 0);
+    assert!(code <= 1);
+}
+#[kani::proof]
+#[kani::unwind(8)]
 pub fn k_storage_odd_3() {
     let raw: [u8; storage::RAW] = kani::any();
     let code = storage::scenario::<storage::Odd>(&raw, 3);
@@ -156,6 +188,7 @@ harness_b!(k_builder_step_2_2_1_1_g2, 5, builder::builder_step::<2, 2, 1, 1, 2>)
 harness_b!(k_builder_step_2_2_1_1_g3, 5, builder::builder_step::<2, 2, 1, 1, 3>);
 harness_b!(k_builder_module, 5, builder::builder_module);
 harness_b!(k_builder_types, 5, builder::builder_types);
+harness_b!(k_type_identical, 5, builder::type_identical);
 
 harness_b!(k_probe_sel, 5, builder::builder_step_sel::<2, 1, 0, 1, 0, 1, 1>);
 harness_b!(k_probe_sel_g1, 5, builder::builder_step_sel::<2, 1, 0, 1, 1, 1, 1>);
